@@ -104,10 +104,36 @@ func runC12(c *Ctx) {
 			"before anything is stored the whole body must have been consumed through the size-limited reader: after Decode, dec.Token() must have returned io.EOF (dec.More() is not enough: it is false for '}' / ']' and on read errors)")
 	}
 	r.Check("C12.write-gate", "handleUpload/storage write sites", gd.Pos(h.Pos()), nW >= 2, fmt.Sprintf("%d storage calls", nW))
+	// the report, or a variable that holds a by-value copy of it (a helper returning the struct)
+	isReportVar := func(a *ssa.Alloc, at ssa.Instruction) bool {
+		for _, o := range copyOrigins(a, factsAt(at)) {
+			if o != report {
+				return false
+			}
+		}
+		return true
+	}
+	canon := func(d string, at ssa.Instruction) string {
+		for _, in := range instrsOf(h) {
+			if a, ok := in.(*ssa.Alloc); ok && namedType(a.Type()) == "internal/telemetry.Report" && isReportVar(a, at) {
+				d = strings.ReplaceAll(d, "alloc:"+allocName(a), "alloc:REPORT")
+			}
+		}
+		return d
+	}
 	// the encoded value is the validated report
 	for _, cs := range callsIn(h, "(*encoding/json.Encoder).Encode") {
 		d := describe(argsOf(cs)[1])
-		r.Check("C12.write-gate", "handleUpload/stores the validated report", gd.Pos(cs.Pos()), d == "*alloc:"+allocName(report) || d == "alloc:"+allocName(report), "the value encoded into storage must be the report that was validated; got "+d)
+		okRep := false
+		switch x := strip(argsOf(cs)[1]).(type) {
+		case *ssa.Alloc:
+			okRep = isReportVar(x, cs)
+		case *ssa.UnOp:
+			if a, ok := x.X.(*ssa.Alloc); ok && x.Op == token.MUL {
+				okRep = isReportVar(a, cs)
+			}
+		}
+		r.Check("C12.write-gate", "handleUpload/stores the validated report", gd.Pos(cs.Pos()), okRep, "the value encoded into storage must be the report that was validated (or a by-value copy of it); got "+d)
 		// encoder writes into the storage writer
 		ed := describe(argsOf(cs)[0])
 		r.Check("C12.write-gate", "handleUpload/encoder writes to the storage object", gd.Pos(cs.Pos()), strings.Contains(ed, ".NewWriter(") && strings.Contains(ed, ".Object("), "got "+ed)
@@ -119,8 +145,8 @@ func runC12(c *Ctx) {
 		if !strings.HasSuffix(n, ".BucketHandle).Object") {
 			continue
 		}
-		nm := describe(argsOf(cs)[0])
-		want := fmt.Sprintf(`fmt.Sprintf("%%s/%%g.json", [alloc:%s.Week, alloc:%s.X])`, allocName(report), allocName(report))
+		nm := canon(describe(argsOf(cs)[0]), cs)
+		want := `fmt.Sprintf("%s/%g.json", [alloc:REPORT.Week, alloc:REPORT.X])`
 		r.Check("C12.name", "handleUpload/object name", gd.Pos(cs.Pos()), nm == want, "the object must be named <Week>/<X>.json from the validated report; got "+nm)
 		bd := describe(cs.Common().Value)
 		r.Check("C12.name", "handleUpload/bucket", gd.Pos(cs.Pos()), strings.Contains(bd, "uploadBucket"), "got "+bd)
